@@ -687,6 +687,50 @@ pub fn nametext_event(text: &[u8], zone: &[u8]) -> String {
 }
 
 // ---------------------------------------------------------------------------------------------
+// C13: record text -> wire record, then insertion into each record section of a valid packet
+
+pub fn synth_event(v: &Value) -> String {
+    let text_bytes = vbytes(&v["text"]);
+    let text = String::from_utf8_lossy(&text_bytes).to_string();
+    let r = guarded(|| dnssector::synth::r#gen::RR::from_string(&text));
+    let (res, wire, err) = match &r {
+        Ok(Ok(rr)) => ("ok", rr.packet.clone(), String::new()),
+        Ok(Err(e)) => ("err", vec![], e.to_string()),
+        Err(()) => ("panic", vec![], String::new()),
+    };
+    let mut ins = vec![];
+    if res == "ok" {
+        let base: Vec<u8> = vec![
+            0, 9, 0x81, 0x80, 0, 1, 0, 1, 0, 1, 0, 1, 1, b'b', 2, b'e', b'x', 0, 0, 1, 0, 1, 0xc0, 12, 0, 1, 0, 1, 0, 0, 0, 5, 0, 4, 1, 2, 3, 4,
+            0xc0, 14, 0, 2, 0, 1, 0, 0, 0, 5, 0, 2, 0xc0, 12, 0, 0, 41, 4, 208, 0, 0, 0, 0, 0, 0,
+        ];
+        for (sec, secn) in [(Section::Answer, "AN"), (Section::NameServers, "NS"), (Section::Additional, "AR")] {
+            let b = base.clone();
+            let txt = text.clone();
+            let out = guarded(move || {
+                let mut pp = DNSSector::new(b).unwrap().parse().unwrap();
+                let r = pp.insert_rr_from_string(sec, &txt);
+                (r.is_ok(), pp.packet().to_vec())
+            });
+            match out {
+                Ok((ok, bytes)) => ins.push(format!("{{\"sec\":\"{}\",\"res\":\"{}\",\"bytes\":{}}}", secn, if ok { "ok" } else { "err" }, jbytes(&bytes))),
+                Err(()) => ins.push(format!("{{\"sec\":\"{}\",\"res\":\"panic\",\"bytes\":[]}}", secn)),
+            }
+        }
+    }
+    format!(
+        "{{\"k\":\"synth\",\"text\":{},\"expect\":{},\"rec\":{},\"res\":\"{}\",\"err\":{},\"wire\":{},\"ins\":[{}]}}",
+        jbytes(&text_bytes),
+        v["expect"],
+        v["rec"],
+        res,
+        jstr(&err),
+        jbytes(&wire),
+        ins.join(",")
+    )
+}
+
+// ---------------------------------------------------------------------------------------------
 // dispatcher for scenario lines {"do": ..., ...}
 
 pub fn run_line(v: &Value) -> Option<String> {
@@ -722,6 +766,7 @@ pub fn run_line(v: &Value) -> Option<String> {
         }
         "read" => read_event(&pkt),
         "hdr" => Some(header_event(v)),
+        "synth" => Some(synth_event(v)),
         "walk" => crate::hist::run_walk(v),
         "nametext" => Some(nametext_event(&vbytes(&v["text"]), &vbytes(&v["zone"]))),
         "decomp" => Some(decomposition_sweep(vusize(&v["threads"]).max(1))),
